@@ -110,6 +110,51 @@ struct Env {
     gm: GuestMemoryMmap<()>,
 }
 
+/// The same judgement with HOST-address bits above 31 chosen: the guest bytes straddle an address
+/// whose low 32 bits are zero, and the local buffer lies exactly 4 GiB above them (equal modulo
+/// 2^32, yet disjoint), 4 GiB +- 8, or is an ordinary buffer.
+#[cfg(not(miri))]
+fn high_address_bits_grid() {
+    use crate::common::bigspace::TwoWindows;
+    let Some(w) = TwoWindows::new() else {
+        out::note("C06/high-address-bits-skipped", J::s("could not reserve 8 GiB of address space".to_string()));
+        return;
+    };
+    w.fill(0x11);
+    let gbase = w.a - 64;
+    // SAFETY: 128 bytes inside the first read-write window.
+    let vs = unsafe { VolatileSlice::new(gbase as *mut u8, 128) };
+    let mut cells = 0u64;
+    for n in 1..=12usize {
+        for goff in [40usize, 48, 56, 57, 60, 62, 63, 64, 65, 66, 68, 72, 80] {
+            for (lname, delta) in [("4GiB-above", 0isize), ("4GiB+8-above", 8), ("4GiB-8-above", -8), ("4GiB+1-above", 1)] {
+                let laddr = ((w.b - 64 + goff) as isize + delta) as usize;
+                // SAFETY: `n` bytes inside the second read-write window, referenced by nothing else.
+                let lbuf: &mut [u8] = unsafe { std::slice::from_raw_parts_mut(laddr as *mut u8, n) };
+                lbuf.iter_mut().enumerate().for_each(|(i, b)| *b = 0x80 | i as u8);
+                let g = gbase + goff;
+                take_events();
+                let _ = vs.write(lbuf, goff);
+                judge(&format!("slice.write(local {})", lname), Dir::Write, n, g, laddr, &take_events(), true);
+                let _ = vs.write_slice(lbuf, goff);
+                judge(&format!("slice.write_slice(local {})", lname), Dir::Write, n, g, laddr, &take_events(), true);
+                let _ = vs.read(lbuf, goff);
+                judge(&format!("slice.read(local {})", lname), Dir::Read, n, g, laddr, &take_events(), true);
+                let _ = vs.read_slice(lbuf, goff);
+                judge(&format!("slice.read_slice(local {})", lname), Dir::Read, n, g, laddr, &take_events(), true);
+                if let Ok(sub) = vs.subslice(goff, n) {
+                    let _ = sub.copy_from::<u8>(lbuf);
+                    judge(&format!("slice.copy_from<u8>(local {})", lname), Dir::Write, n, g, laddr, &take_events(), true);
+                    let _ = sub.copy_to::<u8>(lbuf);
+                    judge(&format!("slice.copy_to<u8>(local {})", lname), Dir::Read, n, g, laddr, &take_events(), true);
+                }
+                cells += 6;
+            }
+        }
+    }
+    out::count("high_address_bits_cells", cells as i128);
+}
+
 /// Complete grid for every entry point that funnels into the helper.
 fn grid(env: &Env) {
     let abase = env.arena.ptr as usize; // 16-aligned (Place::C(0))
@@ -724,6 +769,12 @@ pub fn run(args: &Args) {
     set_copy_hook(Some(hook));
     if let Err(p) = guarded(|| grid(&env)) {
         v(&format!("panic/grid/{}", panic_sig(&p)), J::s(p));
+    }
+    #[cfg(not(miri))]
+    if std::env::var("VMV_ARENA").as_deref() != Ok("heap") {
+        if let Err(p) = guarded(high_address_bits_grid) {
+            v(&format!("panic/high-address-bits/{}", panic_sig(&p)), J::s(p));
+        }
     }
     set_copy_hook(None);
     // the hook must be inert when unregistered
